@@ -27,6 +27,12 @@ CHECKS = {
     'C07': (EX, 'exhaustive enumeration of figure_tax over every whole dollar 0..99,999 x 5 statuses x 3 years, row edges, bracket boundaries and a fixed grid to 1e12, against independently written statutory brackets (midpoint rule / bracket formula)',
             'Every whole-dollar taxable income below $100,000 and every boundary above is evaluated on the shipped figure_tax and compared with statutory.py; monotonicity, marginal-rate bound and QSS==MFJ checked on the same enumeration.',
             'Trusted: hv/statutory.py (brackets from Rev. Proc. 2020-45/2021-45/2022-38), cross-checked: reproduces every shipped table cell and worksheet constant.', '5/C07'),
+    'C09': (MC, 'deviation-bounded exploration of real returns (prompt tree) with a frozen gate table: (A) gate lines reading yes never coexist with a solved verdict, (B) every frozen declared-unsupported context re-declared via prompt and via file must not solve',
+            'All boolean inputs are flipped in every base return (d<=1; thorough d<=2) and the over-limit amount gates are driven; the table hv/gates.json (1132 contexts, 420 (line,input) gate pairs derived by E4) pins what must keep refusing.',
+            'Trusted: hv/gates.json, generated on the repaired tree by tools/mk_gates.py and reviewed; entries must be retired if habutax implements a situation.', '5/C09'),
+    'C10': (MC, 'stateless DFS over the answer vectors of an open environment for every line definition (E4), resolving every executed reference against the year catalogue; dynamic net over explored real returns',
+            'Every line definition of every form/instance/year is executed under all type-correct answers (full product when it fits, else deviation-bounded) with exact reference-site coverage accounting; unresolved names, AttributeError/NameError/KeyError/AssertionError/RecursionError are violations.',
+            'Claimed for executed paths only; unreached reference sites are listed in evidence. Known findings: number_dependents > 4.', '5/C10'),
     'C11': (EX, 'exhaustive enumeration of all strings <= L over a 26-symbol alphabet x 9 input kinds x 3 routes (spec, INI file/InputStore, prompt loop + store) and a line-level route on the real Solver',
             'valid() <=> value() succeeds; store yields a value only for valid text, InvalidInput otherwise, MissingInput for absent keys; values have the declared type, are finite and equal an independent parse for plain numerals.',
             'Trusted: the recognisers in c11.expected(). Strings longer than L (quick 4, thorough 5) or outside the alphabet not covered.', '5/C11'),
@@ -45,6 +51,18 @@ CHECKS = {
     'C19': (EX, 'exhaustive enumeration of strings <= L over {( ) \\ \' " a space} through the real _create_fdf decoded by an independent PDF literal-string reader; every solved explored return through `solve --solution` + `fill-pdfs` with a stand-in pdftk',
             'FDF decodes to exactly the mapped (name, text) list; the forms filled, their templates, once each, and the cat order equal an independent filing table; length/choice limits refuse at limit+1.',
             'Trusted: c19.read_fdf, c19.FILING. Printable ASCII only.', '5/C19'),
+    'C15': (MC, 'deviation-bounded exploration of real returns; balance identities and a transcribed non-negative line list evaluated on every solved return',
+            'Federal and NC balance identities (34-37 = 33-24, one side zero, refund split; NC 25/19/26a/28/34) and non-negativity of ~90 lines on every solved explored return with non-negative inputs.',
+            'Trusted: e3mon.NONNEG transcription.', '5/C15'),
+    'C16': (MC, 'pairs of explored states: every solved return x all instance renumberings (<=3 copies) x every wage/withholding/expense input raised by {1,50,1000,100000}',
+            'Renumbering changes nothing but listing order; wages up => total tax not lower; deductible expense up => not higher; withholding +d => refund-minus-owed +d exactly; only pairs in which both solve.',
+            'Input classification lists in e3mon (WITHHOLDING, EXPENSES).', '5/C16'),
+    'C17': (EX, 'exhaustive enumeration of (year, form class, allowed instance), (threshold table, status) pairs, list-forms filters and list-form-inputs templates parsed back as INI',
+            'Instantiation, declared year, metadata, unique/lower-case/dot-free names, sequence number and template for fileable forms, exactly-one threshold match per status, CLI listings parse back to exactly the form inputs.',
+            'Inline status switches in line code are covered by C10/C08 instead.', '5/C17'),
+    'C20': (FE, 'exhaustive enumeration of interruption points: every prompt index k x {Ctrl-C, Ctrl-C at re-prompt, EOF, unsupported form after k answers, failing line after k answers} x start file {none, empty, half}, real habutax.solve(args) in process, followed by a second run',
+            'After every interrupted session the file parses, keeps every prior value and every answer given, and the second run does not ask for them again.',
+            'Crash points inside open()/write() of the write-back are not enumerated (not listed by the property).', '5/C20'),
 }
 
 NOT_YET = {}
